@@ -80,6 +80,9 @@ type SMTPServerConfig struct {
 	BreakHandshake bool        // answer 220, then close the connection
 	NoSMTPUTF8     bool        // omit SMTPUTF8
 	NoREQUIRETLS   bool        // omit REQUIRETLS (otherwise advertised once TLS is on)
+	// QuitMode: "" = 221 and close; "busy" = 421 and keep the connection open; "silent" = no
+	// reply, keep reading; "drop" = close without a reply
+	QuitMode string
 	TLS            *tls.Config // nil: no STARTTLS at all
 	CertClass      string      // recorded in events: "valid" | "selfsigned" | "wrongname" | ""
 	Txns           []SMTPTxn   // transactions beyond the script are answered positively
@@ -624,6 +627,21 @@ func (s *SMTPServer) handle(raw net.Conn, id int) {
 			}
 		case "QUIT":
 			c.settle(c.tls)
+			switch s.cfg.QuitMode {
+			case "busy":
+				logCmd(421)
+				if c.write("421 4.3.2 service not available\r\n") != nil {
+					return
+				}
+				continue
+			case "silent":
+				logCmd(-1)
+				continue
+			case "drop":
+				logCmd(-1)
+				c.how = "drop"
+				return
+			}
 			logCmd(221)
 			c.how = "quit"
 			c.write("221 2.0.0 bye\r\n")
